@@ -15,4 +15,11 @@ r = subprocess.run([sys.executable, os.path.join(HERE, 'model_facts.py')], captu
 print(r.stdout.strip()[-300:])
 if r.returncode != 0:
     print('model facts checker failed (checks that need it will report UNDECIDED)')
+# pre-build the bounded native oracle (path dependency on the repository; nothing is written into /repo)
+try:
+    sys.path.insert(0, HERE)
+    import native
+    print('native oracle:', native.build())
+except Exception as e:
+    print('native oracle not built (bounded stand-in / replay search unavailable):', str(e)[:200])
 sys.exit(0 if ok else 1)
